@@ -8,7 +8,9 @@ C25 — model of the JSON helpers and the update control flow of `sdk/src/settin
   Settings::with_string / with_json / with_toml / update_from_str
   Settings::with_value / set_value / get_value
   Settings::from_string / set_thread_local_value   (thread-local value)
-  IntoSettings for &str / Value, Context::set_settings (sdk/src/context.rs)
+  Settings::with_file / from_file                  (extension dispatch, read, from_utf8_lossy)
+  IntoSettings for &str / String / serde_json::Value, Context::set_settings (sdk/src/context.rs)
+  sequences of updates on one `Settings` (`Op`, `step`, `runOps`)
 
 `serde_json` is built with `preserve_order`: a `Map` is an insertion-ordered association
 list with unique keys (`IndexMap`). `Map::insert` on a present key replaces the value in
@@ -80,6 +82,9 @@ inductive Err where
   | path      -- set_at_path failed
   | invalid   -- deserialisation or validation failed
   | missing   -- get_value: no value at the path
+  | validate (variant : String)  -- `SettingsValidate::validate` failed with this `Error` variant
+  | io        -- `std::fs::read` failed (`Error::IoError`)
+  | ext       -- `with_file`: the path has no extension / a non-UTF-8 one (`Error::BadParam`)
   deriving DecidableEq, Repr
 
 /-- `if !current.is_object() { *current = Object(Map::new()) }` -/
@@ -198,6 +203,73 @@ def setSettingsStr (norm : Norm) (dflt : Json) (doc : Doc) (ctx : Json) : Except
   | .ok s => (.ok (), s)
   | .error e => (.error e, ctx)
 
+/-- `impl IntoSettings for serde_json::Value`: `serde_json::to_string(&self)` and then
+`Settings::default().update_from_str(&json_str, "json")`. `doc.json` is what the JSON parser makes
+of that text (the value itself when serde_json round-trips it; the harness checks that it does). -/
+def intoSettingsValue (norm : Norm) (dflt : Json) (doc : Doc) : Except Err Json :=
+  match updateFromStr norm doc "json" dflt with
+  | (.ok _, s) => .ok s
+  | (.error e, _) => .error e
+
+/-- `Context::set_settings(&mut self, Value)` -/
+def setSettingsValue (norm : Norm) (dflt : Json) (doc : Doc) (ctx : Json) : Except Err Unit × Json :=
+  match intoSettingsValue norm dflt doc with
+  | .ok s => (.ok (), s)
+  | .error e => (.error e, ctx)
+
+/-! ### files -/
+
+/-- What `Path::extension` and `std::fs::read` give for a settings path. -/
+structure FileIn where
+  /-- `path.extension()` as `to_string_lossy` renders it; `none`: the path has no extension -/
+  ext : Option String
+  /-- `OsStr::to_str` succeeds on the extension -/
+  extUtf8 : Bool
+  /-- `none`: `std::fs::read` failed; otherwise what the two parsers make of
+  `String::from_utf8_lossy(bytes)` -/
+  read : Option Doc
+
+/-- `Settings::with_file`: extension (`BadParam` when missing or not UTF-8) → read → `with_string`
+with the extension as the format name. -/
+def withFile (norm : Norm) (self : Json) (f : FileIn) : Except Err Json :=
+  match f.ext with
+  | none => .error .ext
+  | some e =>
+    if !f.extUtf8 then .error .ext
+    else
+      match f.read with
+      | none => .error .io
+      | some doc => withString norm self doc e
+
+/-- `Settings::from_file` (deprecated, thread-local): extension (`UnsupportedType` when missing,
+`to_string_lossy` otherwise) → read → `from_string`. -/
+def fromFile (norm : Norm) (f : FileIn) (tl : Json) : Except Err Json × Json :=
+  match f.ext with
+  | none => (.error .format, tl)
+  | some e =>
+    match f.read with
+    | none => (.error .io, tl)
+    | some doc => fromString norm doc e tl
+
+/-! ### sequences of updates on one `Settings` value -/
+
+inductive Op where
+  | update (doc : Doc) (fmt : String)      -- `update_from_str` / `with_json` / `with_toml`
+  | setv (path : String) (v : Json)        -- `set_value` / `with_value`
+
+/-- one step: the result and the settings afterwards -/
+def step (norm : Norm) (self : Json) : Op → Except Err Unit × Json
+  | .update doc fmt => updateFromStr norm doc fmt self
+  | .setv path v => setValue norm path v self
+
+/-- a history of steps on one settings value: every result, and the settings at the end -/
+def runOps (norm : Norm) : Json → List Op → List (Except Err Unit) × Json
+  | self, [] => ([], self)
+  | self, op :: rest =>
+    let r := step norm self op
+    let rr := runOps norm r.2 rest
+    (r.1 :: rr.1, rr.2)
+
 /-! ### line protocol
 
 value encoding (ASCII, no spaces):
@@ -305,15 +377,34 @@ def decParse (s : String) : Option (Except Err Json) :=
   if s == "!" then some (.error .parse) else (dec s).map .ok
 
 /-- `norm` as a constant function fixed by the harness for the single merged value of a request:
-`!` = rejected, otherwise the normalised value. -/
+`!` = rejected by the deserializer (`BadParam`), `!<Variant>` = rejected by `validate` with that
+`Error` variant, otherwise the normalised value. -/
 def decNorm (s : String) : Option Norm :=
-  if s == "!" then some (fun _ => .error .invalid) else (dec s).map fun j => fun _ => .ok j
-
-def Err.str : Err → String
-  | .parse => "bad" | .path => "bad" | .invalid => "bad" | .missing => "bad"
-  | .format => "format"
+  if s == "!" then some (fun _ => .error .invalid)
+  else if s.startsWith "!" then
+    let v := String.ofList (s.toList.drop 1)
+    some (fun _ => .error (.validate v))
+  else (dec s).map fun j => fun _ => .ok j
 
 def decStr (s : String) : Option String := pctDec s.toList
+
+/-- the `c2pa::Error` variant the caller sees -/
+def Err.str : Err → String
+  | .parse => "BadParam" | .path => "BadParam" | .invalid => "BadParam" | .missing => "BadParam"
+  | .ext => "BadParam"
+  | .format => "UnsupportedType"
+  | .io => "IoError"
+  | .validate v => v
+
+/-- `ext=-` no extension, otherwise the (lossy) extension; `u=1|0`; `rd=0` read failed. -/
+def decFile (rest : List String) : Option FileIn :=
+  let e := field rest "ext"
+  let ext? : Option (Option String) := if e == "-" then some none else (decStr e).map some
+  match ext?, decParse (field rest "pj"), decParse (field rest "pt") with
+  | some ext, some pj, some pt =>
+    some { ext := ext, extUtf8 := field rest "u" == "1",
+           read := if field rest "rd" == "0" then none else some { json := pj, toml := pt } }
+  | _, _, _ => none
 
 def mergedOf (tl : Json) (doc : Doc) (fmt : String) : String :=
   match parseToValue doc fmt with
@@ -393,6 +484,28 @@ def handle (toks : List String) : String :=
       | (.ok _, s) => "ok s=" ++ encSorted s
       | (.error e, s) => "err:" ++ e.str ++ " s=" ++ encSorted s
     | _, _, _, _, _, _ => "bad-request"
+  | "ctxval" :: rest =>
+    match dec (field rest "dflt"), dec (field rest "cur"), decParse (field rest "pj"), decNorm (field rest "n") with
+    | some dflt, some cur, some pj, some norm =>
+      let doc : Doc := { json := pj, toml := .error .parse }
+      match setSettingsValue norm dflt doc cur with
+      | (.ok _, s) => "ok s=" ++ encSorted s
+      | (.error e, s) => "err:" ++ e.str ++ " s=" ++ encSorted s
+    | _, _, _, _ => "bad-request"
+  | "file" :: rest =>
+    match dec (field rest "cur"), decFile rest, decNorm (field rest "n") with
+    | some cur, some f, some norm =>
+      match withFile norm cur f with
+      | .ok s => "ok s=" ++ encSorted s
+      | .error e => "err:" ++ e.str
+    | _, _, _ => "bad-request"
+  | "tlfile" :: rest =>
+    match dec (field rest "tl"), decFile rest, decNorm (field rest "n") with
+    | some tl, some f, some norm =>
+      match fromFile norm f tl with
+      | (.ok s, tl') => "ok s=" ++ encSorted s ++ " tl=" ++ enc tl'
+      | (.error e, tl') => "err:" ++ e.str ++ " tl=" ++ enc tl'
+    | _, _, _ => "bad-request"
   | _ => "bad-op"
 
 end C2pa.C25
